@@ -27,7 +27,8 @@ META = {
     "note": "Ignore matching (C37) and SHA-1 are data here. Conflicts, submodules, renames, filters/autocrlf, sparse index and fsmonitor are outside the model. Trusted: TLC, git 2.39.5 as reference.",
 }
 QUERIES = [("no", False), ("normal", False), ("all", False), ("normal", True), ("all", True)]
-BUGS = ["no_racy_check", "replacing_dir_listed", "ignored_hidden_in_untracked_dir", "ignored_dirs_stay_collapsed", "dirwalk_both"]
+BUGS = ["no_racy_check", "replacing_dir_listed", "ignored_hidden_in_untracked_dir", "ignored_dirs_stay_collapsed", "deleted_entries_do_not_keep_dir",
+        "dirwalk_several"]
 
 
 def g(args, cwd, input=b"", env=None):
@@ -255,6 +256,7 @@ def run_world(ctx, binary, name, scenarios, minimal, judged_by_gen):
         if "got" not in r:
             ctx.violation({"kind": "crash", "classes": ["crash"], "case": {"world": name, "query": [u, ig]}, "result": r})
             continue
+        r["got"]["items"] = [it for it in r["got"]["items"] if it["code"] != "N"]      # stat refreshes are not part of the status
         if any(it["code"] in "EPKRSU" for it in r["got"]["items"]):
             ctx.violation({"kind": "crash", "classes": ["unexpected-item"], "case": {"world": name, "query": [u, ig]},
                            "items": [it for it in r["got"]["items"] if it["code"] in "EPKRSU"][:5]})
@@ -295,11 +297,14 @@ def run_world(ctx, binary, name, scenarios, minimal, judged_by_gen):
     ctx.cov["git_audited"] = ctx.cov.get("git_audited", 0) + len(events_git)
     rej = ctx.tlc_trace("worktree", "Status_Trace", events_gix, consts=consts)
     if rej:
+        ctx.log("%s: Status_Trace rejects %d of %d gix reports" % (name, len(rej), len(events_gix)))
+        rej = rej[:120]        # classification of a sample; every rejection is a violation of the same kind of record
         sub = [events_gix[k] for k in rej]
         expl = {}
         for cname, sw in (("no_racy_check", {"BugNoRacy": "TRUE"}), ("replacing_dir_listed", {"BugShowReplacing": "TRUE"}),
                           ("ignored_hidden_in_untracked_dir", {"BugHideIgnored": "TRUE"}), ("ignored_dirs_stay_collapsed", {"BugKeepDirs": "TRUE"}),
-                          ("dirwalk_both", {"BugShowReplacing": "TRUE", "BugHideIgnored": "TRUE", "BugKeepDirs": "TRUE"})):
+                          ("deleted_entries_do_not_keep_dir", {"BugDeleted": "TRUE"}),
+                          ("dirwalk_several", {"BugShowReplacing": "TRUE", "BugHideIgnored": "TRUE", "BugKeepDirs": "TRUE", "BugDeleted": "TRUE"})):
             still = set(ctx.tlc_trace("worktree", "Status_Trace", sub, consts=sw))
             for j, k in enumerate(rej):
                 if j not in still and k not in expl:
